@@ -155,6 +155,25 @@ CLAIMS = {
               "deterministic FiniteStateController class cannot be constructed at all (its two shape assertions are swapped) and is "
               "therefore not a roll-out driver here."),
         ref='DESIGN.md section 4 C14'),
+    'C09': dict(
+        text=("Partly applicable. Decided by symbolic execution: (1) stochastic_fsc_policy_evaluation_exact (through a torch facade) "
+              "on symbolic rewards and a symbolic initial node distribution: the (node,state) value table equals fresh unknowns "
+              "pinned by the Bellman expectation equations of the controller x POMDP cross product, state_value and "
+              "expected_value mix it correctly; (2) StochasticFiniteStateController executed step by step from "
+              "initial_agentstate for EVERY action/observation history of length <= 2 with a symbolic initial node "
+              "distribution: action probabilities and node beliefs are the ones the controller defines (conditioned on the "
+              "action taken); run_on stops at absorbing states (incl. an absorbing start); (3) improve_node_matrix_constraint: "
+              "the LP handed to the solver is Poupart & Boutilier's table-4 program entry by entry (symbolic rewards and value "
+              "table), and for EVERY feasible LP point (nondeterministic solver oracle) the extracted action and node-transition "
+              "strategies and the updated controller are probability distributions; with_new_node / propose_escape_node keep the "
+              "controller row-stochastic."),
+        note=("NOT covered (not decidable by this technique here): that bounded policy iteration never lowers a node value between "
+              "iterations and reports the exact value of the returned controller, and gradient ascent's Adam/autograd loop - "
+              "both depend on the optimal solution returned by compiled HiGHS / torch autograd. 4 POMDP skeletons (2-3 states), "
+              "controllers with 1-2 nodes from strategy menus, histories <= 2 (3 in thorough). One known finding is reported "
+              "(the evaluator does not end episodes at absorbing states; repairing it breaks a repository test that hard-codes "
+              "the current numbers); one defect was repaired in /repo (node belief not conditioned on the action)."),
+        ref='DESIGN.md section 4 C09'),
     'C10': dict(
         text=("Q-learning, SARSA, expected SARSA and double Q-learning are run through train_on with symbolic rewards, symbolic "
               "initial Q-values (constant or per state-action), symbolic exploration rate and a nondeterministic generator, so "
